@@ -34,6 +34,9 @@ def run(c):
         t = c.rundir / "exh.ndjson"
         c.drive(drv, ["exhaustive", c.pick(2, 3), t])
         traces.append(t)
+        t = c.rundir / "exh1.ndjson"
+        c.drive(drv, ["exhaustive1", c.pick(3, 4), t])
+        traces.append(t)
         t = c.rundir / "rand.ndjson"
         c.drive(drv, ["random", c.seed, c.pick(300, 4000), t])
         traces.append(t)
@@ -55,6 +58,6 @@ def run(c):
     c.distinct_nontrivial = len(distinct)
     return c.finish(
         "model_checking",
-        rule="schedule = (peer_capacity, record_capacity, remove_addr_on_dial_error, op sequence over add/remove/ext/conn/conn_in/dft/dfw/dfo); TLC prints one schedule per transition of the model's state graph (2-3 peers x 2 addresses, capacities 1-2), the driver adds all sequences of length 2 (thorough 3) over 26 letters x 5 configurations and seeded random schedules (length 5..40, capacities 1..4); distinct = distinct schedules with an explicit add plus a dial-failure event, or more additions than a capacity",
+        rule="schedule = (peer_capacity, record_capacity, remove_addr_on_dial_error, op sequence over add/remove/ext/conn/conn_in/dft/dfw/dfo); TLC prints one schedule per transition of the model's state graph (2-3 peers x 2 addresses, capacities 1-2), the driver adds all sequences of length 2 (thorough 3) over 26 letters x 5 configurations, all sequences of length 3 (thorough 4) over the 13 one-peer letters x 2 configurations and seeded random schedules (length 5..40, capacities 1..4); distinct = distinct schedules with an explicit add plus a dial-failure event, or more additions than a capacity",
         assumptions=["store observed through record_iter / addresses_of_peer / poll after every operation"],
     )
